@@ -3,6 +3,7 @@ package server
 import (
 	"bytes"
 	"context"
+	"encoding/binary"
 	"errors"
 	"github.com/aldas/go-modbus-client/packet"
 )
@@ -28,8 +29,12 @@ func (m *ModbusTCPAssembler) ReceiveRead(ctx context.Context, received []byte, b
 		if err == packet.ErrIsNotTCPPacket {
 			// the stream can not be synchronized to a packet boundary anymore: answer to what the header claims to
 			// be and drop everything that is buffered
+			reply := packet.ErrIsNotTCPPacket.Packet
+			reply.TransactionID = binary.BigEndian.Uint16(buffered[0:2])
+			reply.UnitID = buffered[6]
+			reply.Function = buffered[7] &^ 0x80
 			m.received.Reset()
-			return append(response, packet.ErrIsNotTCPPacket.Bytes()...), false
+			return append(response, reply.Bytes()...), false
 		}
 		if len(buffered) < n {
 			return response, false // wait for the rest of the packet to arrive
@@ -52,11 +57,18 @@ func (m *ModbusTCPAssembler) handle(ctx context.Context, frame []byte) []byte {
 
 	resp, err := m.Handler.Handle(ctx, p)
 	if err != nil {
+		// the exception must be addressed to the request it answers
+		reply := packet.ErrorResponseTCP{
+			TransactionID: binary.BigEndian.Uint16(frame[0:2]),
+			UnitID:        frame[6],
+			Function:      frame[7],
+			Code:          packet.ErrUnknown,
+		}
 		var target *packet.ErrorParseTCP
 		if errors.As(err, &target) {
-			return target.Bytes()
+			reply.Code = target.Packet.Code
 		}
-		return packet.NewErrorParseTCP(packet.ErrUnknown, err.Error()).Bytes()
+		return reply.Bytes()
 	}
 
 	return resp.Bytes()
